@@ -1415,6 +1415,30 @@ pub fn c14(c: &Collector, g: &mut Guard) {
             refine_all(c, "C14", "E2.deep-stack", t, local);
         },
     );
+    // every other SEQUENCE leaves the stack unchanged too: every CSI final (with and without a
+    // parameter) and every ESC final except 7 and 8, known or unknown, before a real DECRC
+    let sb: Vec<Base> = bases.iter().filter(|b| !b.screen.savepoints.is_empty() && b.columns >= 3).step_by(23).cloned().collect();
+    sweep(
+        c,
+        &sb,
+        |_| {
+            let mut v = Vec::new();
+            for f in (0x21u8..0x7f).map(|b| b as char) {
+                if !f.is_ascii_digit() && f != ';' && f != '?' && f != '$' && f != '>' {
+                    v.push(Op::Feed(vec![format!("\x1b[{}\x1b8", f)], true));
+                    v.push(Op::Feed(vec![format!("\x1b[2{}\x1b8", f)], true));
+                }
+                if f != '7' && f != '8' && f != '[' && f != ']' && f != '#' && f != '%' && f != '(' && f != ')' {
+                    v.push(Op::Feed(vec![format!("\x1b{}\x1b8", f)], true));
+                }
+            }
+            v
+        },
+        |c, t, local| {
+            local.count("sequence_frame_checks");
+            refine_all(c, "C14", "E2.frame.sequences", t, local);
+        },
+    );
     // every other operation leaves the stack unchanged
     let fb: Vec<Base> = bases.iter().filter(|b| !b.screen.savepoints.is_empty()).step_by(5).cloned().collect();
     sweep(
@@ -1504,6 +1528,7 @@ pub fn c14(c: &Collector, g: &mut Guard) {
     g.need(c, "stack_frame_checks");
     g.need(c, "nested_restore");
     g.need(c, "deep_stack_histories");
+    g.need(c, "sequence_frame_checks");
 }
 
 // =====================================================================  C12
@@ -1656,6 +1681,10 @@ pub fn c12(c: &Collector, g: &mut Guard) {
                         v.push(csi(&format!("{}{}", q, n), f));
                     }
                 }
+            }
+            for s in ["\x1b[>4h", "\x1b[>4l", "\x1b[ 4h", "\x1b[4 h", "\x1b[>25l", "\x1b[ ?25l", "\x1b[>?6h", "\x1b[?>7l", "\x1b[>20h"] {
+                v.push(Op::Feed(vec![s.to_string()], true));
+                v.push(Op::Feed(vec![format!("ab\r{}X\n", s)], true));
             }
             for s in ["\x1b[?000025l", "\x1b[00000004h", "\x1b[?0000000000000000000007l", "\x1b[?025l\x1b[?00025h"] {
                 v.push(Op::Feed(vec![s.to_string()], true));
